@@ -29,7 +29,7 @@ def plan(tier, seed):
 def conclude(agg):
     c = agg['counters']
     return [f'monitor counter {k} is zero' for k in ('nodes_yielded', 'lines_yielded', 'level_checks', 'fanin_sets', 'circuits_with_open_pin0', 'circuits_with_state',
-                                                     'lookups', 'lookups_2d', 'lookups_ge10', 'lookups_none', 'removed_lines', 'rewired_same_counts')
+                                                     'lookups', 'lookups_2d', 'lookups_ge10', 'lookups_none', 'removed_lines', 'rewired_same_counts', 'relookups_after_edit')
             if c.get(k, 0) == 0]
 
 
@@ -310,6 +310,33 @@ def check_names(case, ctx):
                     ctx.count('lookups_ge10')
                 if got != exp:
                     ctx.violation('prefix-lookup', f'{label}({p!r}) = {got} expected {exp} for container names {[x[0] for x in cont]}', case)
+                    return
+        # second phase on the same Circuit object: the caller edits the lists it got, the port order is changed in place and one state element is
+        # removed and created again (same counts, other positions) - every lookup must describe the circuit as it is now
+        for p in prefixes:
+            for fn in (c.io_locs, c.s_locs):
+                r = fn(p)
+                if isinstance(r, list):
+                    r.reverse()
+                    r.append(-7)
+        by_name = {x[0]: x for x in items}
+        rng.shuffle(c.io_nodes)
+        if st:
+            nm = rng.choice(st)[0]
+            kind = c.cells[nm].kind
+            c.cells[nm].remove()
+            Node(c, nm, kind)
+        io2 = [by_name[n.name] for n in c.io_nodes]
+        s2 = io2 + [by_name[n.name] for n in c.nodes if n.kind == 'DFFX1'] + [by_name[n.name] for n in c.nodes if n.kind == 'LATCHX1']
+        ctx.count('relookups_after_edit')
+        for p in prefixes:
+            for fn, cont, label in ((c.io_locs, io2, 'io_locs'), (c.s_locs, s2, 's_locs')):
+                got = fn(p)
+                exp = expected_locs(p, cont)
+                ctx.count('lookups')
+                if got != exp:
+                    ctx.violation('prefix-lookup', f'{label}({p!r}) = {got} expected {exp} after the port order was changed / a state element was re-created on the same '
+                                  f'circuit (earlier results edited by the caller); container names now {[x[0] for x in cont]}', case)
                     return
     ctx.sample({'names': [x[0] for x in items][:12], 'prefixes': prefixes})
 
